@@ -568,6 +568,9 @@ func (vc *FnVC) doCall(ins ssa.Instruction, c *ssa.CallCommon, st *State) {
 			args = append(args, vc.val(a))
 		}
 		fc := vc.prog.contractOf(fn)
+		if fc == nil && inModule(fn) {
+			fc = vc.defaultFrameContract(fn)
+		}
 		if fn.String() == "errors.As" && len(c.Args) == 2 {
 			results = vc.doErrorsAs(c, st)
 		} else if fc == nil {
@@ -583,6 +586,16 @@ func (vc *FnVC) doCall(ins ssa.Instruction, c *ssa.CallCommon, st *State) {
 		fc := vc.funcValueContract(c.Value)
 		fv := vc.term(c.Value)
 		vc.safety("nil-func("+describeValue(c.Value)+")", not(eq(fv.S, "0")))
+		if fc == nil {
+			// a function literal of this very function, called directly
+			if cf := staticClosure(c.Value); cf != nil {
+				if cfc := vc.prog.contractOf(cf); cfc != nil && len(cfc.Requires) == 0 && len(cfc.Ensures) == 0 {
+					fc = cfc
+				} else if cfc == nil {
+					fc = vc.defaultFrameContract(cf)
+				}
+			}
+		}
 		if fc == nil {
 			results = vc.unknownCall("dynamic call of "+describeValue(c.Value), sig, st)
 		} else {
@@ -1323,4 +1336,61 @@ func (vc *FnVC) doErrorsAs(c *ssa.CallCommon, st *State) []Val {
 	cur := vc.cur(st, comp)
 	vc.setCompFresh(st, comp, ite(okN, sto(cur, ref, nv), cur))
 	return res
+}
+
+// defaultFrameContract: for the property being checked, a module callee without a contract
+// gets `modifies *` plus the property's default `preserves` list; the preserves are not
+// assumed: each such callee gets its own scan obligations in this run (DESIGN.md 4/C10).
+func (vc *FnVC) defaultFrameContract(fn *ssa.Function) *FuncContract {
+	locs := vc.prog.cs.DefaultFrames[vc.prop]
+	if len(locs) == 0 {
+		return nil
+	}
+	id := vc.prog.idOfFn[fn]
+	if id == "" {
+		id = vc.prog.contractID(fn)
+	}
+	if id == "" {
+		return nil
+	}
+	if fc, ok := vc.prog.synth[id]; ok {
+		vc.prog.synthUsed[fn] = fc
+		return fc
+	}
+	k := strings.Index(id, "::")
+	fc := &FuncContract{Key: id[k+2:], Pkg: id[:k], Kind: "func", ModifiesAll: true, Loops: map[int]*LoopSpec{}, Options: map[string]string{"synthesized": "default-frame"}}
+	fc.Preserves = []*Clause{{Kind: "preserves", Tags: []string{vc.prop}, Locs: locs, Src: strings.Join(locs, ", ")}}
+	if vc.prog.synth == nil {
+		vc.prog.synth = map[string]*FuncContract{}
+		vc.prog.synthUsed = map[*ssa.Function]*FuncContract{}
+	}
+	vc.prog.synth[id] = fc
+	vc.prog.synthUsed[fn] = fc
+	return fc
+}
+
+// staticClosure: the function literal a called value denotes, when that is syntactically known
+// (the literal itself, or a single-assignment local variable holding it).
+func staticClosure(v ssa.Value) *ssa.Function {
+	for i := 0; i < 4; i++ {
+		switch x := v.(type) {
+		case *ssa.MakeClosure:
+			return x.Fn.(*ssa.Function)
+		case *ssa.Function:
+			return x
+		case *ssa.UnOp:
+			al, ok := x.X.(*ssa.Alloc)
+			if !ok {
+				return nil
+			}
+			sv, ok := constCell(al)
+			if !ok {
+				return nil
+			}
+			v = sv
+		default:
+			return nil
+		}
+	}
+	return nil
 }
